@@ -34,6 +34,8 @@ REQUIRED_THEOREMS = [
     "TapkeeVerif.C19.spe_indices_perm_local_separate",
     "TapkeeVerif.C19.spe_indices_perm_local_current",
     "TapkeeVerif.C19.spe_indices_perm_local",
+    "TapkeeVerif.C19.spe_alpha_defined",
+    "TapkeeVerif.C19.spe_run_total_current",
     "TapkeeVerif.C19.spe_local_duplicate_first_members",
     "TapkeeVerif.C19.spe_floor_pick_in_range",
     "TapkeeVerif.C19.spe_run_uses_step_pairs",
